@@ -557,7 +557,13 @@ public:
     o["name"] = qualName(fd);
     o["short"] = fd->getNameAsString();
     o["file"] = file;
-    o["line"] = lineOf(fd->getLocation());
+    {
+      // for instantiated members report the line of the (out-of-line) definition
+      SourceLocation dl = fd->getLocation();
+      if (const FunctionDecl *pat = fd->getTemplateInstantiationPattern())
+        if (pat->getLocation().isValid() && fileOf(pat->getLocation()) == file) dl = pat->getLocation();
+      o["line"] = lineOf(dl);
+    }
     o["endline"] = lineOf(fd->getEndLoc());
     o["ret"] = typeStr(fd->getReturnType());
     if (fd->getTemplatedKind() != FunctionDecl::TK_NonTemplate) o["tk"] = (int)fd->getTemplatedKind();
